@@ -225,7 +225,7 @@ impl Typed for C25 {
             if evs.iter().any(|e| e.site == "direct_addr.request" && e.data.ends_with("queued")) {
                 ctx.nontrivial();
             }
-            ep.close().await;
+            let _ = tokio::time::timeout(Duration::from_secs(30), ep.close()).await;
         });
         drop(hook);
     }
